@@ -45,8 +45,11 @@ PickFrom(q, k) == q[(Rnd(k) % Len(q)) + 1]
 NextRnd == s_rnd' = (s_rnd * 75 + 74) % 65537
 NewContainer ==
     LET n == 2 + (Rnd(0) % 6)
-        a == [i \in 1..n |-> PickFrom(WordSeq, i)] IN
-    /\ s_cont' = a /\ Step("c_from", [words |-> a], [post |-> a])
+        \* every third container starts with blanks in its leading slots (a constructor that trims or
+        \* compacts shows there); `parts` asks the replay for the from-parts constructor of that size
+        lead == IF Rnd(9) % 3 = 0 THEN 1 + (Rnd(10) % 2) ELSE 0
+        a == [i \in 1..n |-> IF i <= lead THEN Blank ELSE PickFrom(WordSeq, i)] IN
+    /\ s_cont' = a /\ Step("c_from", [words |-> a, parts |-> Rnd(8) % 2], [post |-> a])
     /\ UNCHANGED <<s_set, s_table>>
 SetSlotA ==
     LET i == Rnd(0) % Len(s_cont)
